@@ -84,6 +84,10 @@ Step(e) ==
                 ELSE Good(PP) /\ UNCHANGED <<nreused, nbad, ncyc>>
       [] e.op = "Put" ->
            IF e.g \notin DOMAIN P.held \/ e.id \notin P.held[e.g] THEN Bad(e, "args", "-", "-")
+           \* a buffer that outgrew the pool's capacity (AppendGrow) is no longer one of the pool's: Put must panic and
+           \* change nothing (C15); everything else must be accepted
+           ELSE IF Len(P.bufs[e.id].cells) # CapOf(P.alloc)
+           THEN (IF e.res = "panic" THEN Good(P) /\ UNCHANGED <<nreused, nbad, ncyc>> ELSE Bad(e, "res", "panic", e.res))
            ELSE IF e.res # "ok" THEN Bad(e, "res", "ok", e.res)
            ELSE Good(TPut(P, e.g, e.id)) /\ UNCHANGED nreused /\ CountAlloc(e) /\ ncyc' = ncyc + 1
       [] e.op = "Forget" ->
